@@ -508,12 +508,16 @@ static void handle_include (const char *inc_name, int optional) {
       is->outptr = outptr;
       inctop = is; /* push new include state */
       current_line--;
-      save_file_info (current_file_id, current_line - current_line_saved);
+      /* the lines of this file up to here, then a chunk of no lines that opens the
+       * included file (see translate_absolute_line()) */
+      if (current_line - current_line_saved > 0)
+        save_file_info (current_file_id, current_line - current_line_saved);
       current_line_base += current_line;
       current_line_saved = 0;
       current_line = 1;
       current_file = make_shared_string (buf);
       current_file_id = add_program_file (buf, 0);
+      save_file_info (current_file_id, 0);
       yyin_desc = fd;
       refill_buffer ();
     }
